@@ -263,10 +263,10 @@ pub fn raw_tokens(data: &[u8]) -> (Vec<String>, usize) {
     (out, biggest)
 }
 
-fn join(v: &[String]) -> String { if v.is_empty() { "-".to_string() } else { v.join(",") } }
+pub fn join(v: &[String]) -> String { if v.is_empty() { "-".to_string() } else { v.join(",") } }
 
 /// size of the largest token the streaming reader must hold at once (an rgb block is one token there)
-fn max_token_len(raw: &[String], biggest_lexeme: usize) -> usize {
+pub fn max_token_len(raw: &[String], biggest_lexeme: usize) -> usize {
     let mut m = biggest_lexeme;
     if raw.iter().any(|t| t == "Id:579") { m = m.max(2 + 2 + 4 * 6 + 2); }
     m
@@ -661,7 +661,7 @@ fn gen_leaf_ty(rng: &mut Rng, l: &BLeaf) -> Ty {
     }
 }
 
-fn key_field_name(l: &BLeaf) -> Option<String> {
+pub fn key_field_name(l: &BLeaf) -> Option<String> {
     match l {
         BLeaf::Quoted(b) | BLeaf::Unquoted(b) if !b.is_empty() && b.iter().all(|c| c.is_ascii_alphanumeric() || *c == b'_') && !b[0].is_ascii_digit() => Some(String::from_utf8(b.clone()).unwrap()),
         BLeaf::Id(i) => docgen::id_name(*i).map(|s| s.to_string()),
@@ -674,9 +674,11 @@ fn gen_fields_ty(rng: &mut Rng, fs: &[BField]) -> Ty {
     let as_struct = !fs.is_empty() && rng.chance(4, 5);
     if as_struct {
         let mut out: Vec<(String, Ty)> = vec![];
+        let mut seen: Vec<String> = vec![];
         for (f, n) in fs.iter().zip(names.iter()) {
             let Some(n) = n else { continue };            // keys that are not identifiers stay unknown fields
-            if out.iter().any(|(m, _)| m == n) { continue; } // declared once; a repeated key is then a duplicate
+            if seen.contains(n) { continue; }                // typed after its first value; a repeated key is then a duplicate
+            seen.push(n.clone());
             if rng.chance(1, 5) { continue; }                // partial struct: unknown field to skip
             let t = gen_node_ty(rng, &f.val);
             let t = if rng.chance(1, 6) { Ty::Opt(Box::new(t)) } else { t };
@@ -903,7 +905,7 @@ fn gen_cfg(rng: &mut Rng) -> Cfg {
     Cfg { strat, lines: rng.chance(1, 2), entries: resolver_variants(rng) }
 }
 
-fn gen_bdoc(g: &mut Gen) -> BDoc {
+pub fn gen_bdoc(g: &mut Gen) -> BDoc {
     let dcfg = DocCfg::shared();
     let mut doc = docgen::gen_doc(&mut g.rng, &dcfg);
     // ghost objects in key position belong to well-formed binary documents
